@@ -461,6 +461,10 @@ def materialise(rs, p):
     k = p[0]
     if k == "authz":
         sc = list(p[3])
+        if rs.grants and (hash((p[1], p[2], len(rs.tokens))) % 3 == 0):
+            # a further login of a user at a client they already have a (possibly revoked) session with
+            _, _, u0, c0 = rs.grants[hash((p[2], p[1])) % len(rs.grants)]
+            p = ("authz", u0, c0, sc)
         if rs.oidc and "openid" not in sc:     # an OIDC authorization request must ask for openid
             sc.insert(0, "openid")
         return ("authz", p[1], p[2], sc)
